@@ -164,6 +164,26 @@ func main() {
 		src: dst,
 		filepath.Join(repo, "verifshim", "vsync", "vsync.go"): shim,
 	}}
+	// the file store's own lock (fileMu) becomes a scheduling point too: only the import is renamed
+	fsrc := filepath.Join(repo, "store", "file", "file_store.go")
+	if ff, err := parser.ParseFile(fset, fsrc, nil, parser.ParseComments); err == nil {
+		renamed := false
+		for _, im := range ff.Imports {
+			if im.Path.Value == `"sync"` {
+				im.Path.Value = shimImport
+				im.Name = ast.NewIdent("sync")
+				renamed = true
+			}
+		}
+		var fb bytes.Buffer
+		if renamed && printer.Fprint(&fb, fset, ff) == nil && strings.Contains(fb.String(), "sync.Mutex") && !strings.Contains(fb.String(), "sync.RWMutex") && !strings.Contains(fb.String(), "sync.WaitGroup") {
+			fdst := filepath.Join(out, "file_store.go")
+			if os.WriteFile(fdst, fb.Bytes(), 0o644) == nil {
+				ov["Replace"][fsrc] = fdst
+				defer fmt.Println("instrumented store/file/file_store.go: sync import renamed (fileMu is a scheduling point)")
+			}
+		}
+	}
 	b, _ := json.MarshalIndent(ov, "", " ")
 	os.WriteFile(filepath.Join(out, "overlay.json"), b, 0o644)
 	rep := fmt.Sprintf("instrumented session.go: %d blocking sends, %d non-blocking sends, %d closes rewritten; %d other send statements left as real channel operations", st.sends, st.trysends, st.closes, st.left)
